@@ -163,3 +163,38 @@ def std_worlds(rng, n, opts=None, prefix='w', perturb=0.0, ps_choices=(4, 8)):
 
 def count(info, key):
     info.setdefault('dist', []).append(key)
+
+# ------------------------------------------------------------------ scoping rule (C11) for use by other oracles
+
+BUILTIN_NAMES = ['u8', 'u16', 'u32', 'u64', 'u128', 'i8', 'i16', 'i32', 'i64', 'i128', 'bool', 'f32', 'f64', 'void']
+
+def binder(c, own):
+    """-> bind(name) -> path list | None: the five-step precedence of the scoping rule, computed from the input
+    (last by-name import, built-in, own module, module imports in order); None also when the own module path is itself
+    a type path (open finding C11/…/module-path-is-type-path) so that callers skip the comparison"""
+    names = {}
+    mods = {}
+    for (mp, file, m) in modules_of(c):
+        mods[tuple(mp)] = m
+        ns = set(xt[1] for xt in m_xtypes(m))
+        for d in m_defs(m):
+            ns.add(def_name(d))
+            if def_is_type(d) and any(tag(st) == 'vftable' for st in type_stmts(d)):
+                ns.add(def_name(d) + 'Vftable')
+        names[tuple(mp)] = ns
+    own = list(own)
+    uses = m_uses(mods[tuple(own)])
+    def is_type(pth):
+        return len(pth) >= 1 and pth[-1] in names.get(tuple(pth[:-1]), ())
+    if is_type(own):
+        return lambda name: None
+    def bind(name):
+        hit = [u for u in uses if is_type(u) and u[-1] == name]
+        if hit: return list(hit[-1])
+        if name in BUILTIN_NAMES: return [name]
+        if name in names.get(tuple(own), ()): return own + [name]
+        for mu in uses:
+            if not is_type(mu) and name in names.get(tuple(mu), ()):
+                return list(mu) + [name]
+        return None
+    return bind
